@@ -236,9 +236,9 @@ theorem inertE (n : Nat) (ih : InertAt n) {F ρ w e} (hi : inertSyn false e = tr
     | fail f w' => rw [he] at this; exact this
     | ok v w' => rw [he] at this; simpa [Quiet] using this
   | alit t es =>
-    simp only [inertSyn] at hi
+    simp only [inertSyn, Bool.and_eq_true] at hi
     rw [evalG.eq_def]; simp only
-    have := ih.el (F := F) (ρ := ρ) (w := w) hi
+    have := ih.el (F := F) (ρ := ρ) (w := w) hi.2
     cases he : evalListG n F ρ w es with
     | fail f w' => rw [he] at this; exact this
     | ok v w' =>
@@ -246,7 +246,7 @@ theorem inertE (n : Nat) (ih : InertAt n) {F ρ w e} (hi : inertSyn false e = tr
       simp only [Quiet] at this
       subst this
       simp only
-      split <;> simp [Quiet]
+      cases t <;> first | (exfalso; simp at hi; done) | simp [Quiet]
   | call t f args => simp [inertSyn] at hi
   | field f t o => simp [inertSyn] at hi
   | index t a i => simp [inertSyn] at hi
